@@ -228,3 +228,82 @@ def literal_dispatches(nodes) -> list[Dispatch]:
             if len(arms) >= 2:
                 out.append(Dispatch(n, first[0], arms, default))
     return out
+
+
+def _general_test(test: ast.AST):
+    """(subject, [("lit", v) | ("in", expr)]) for one if-test."""
+    lt = _literal_test(test)
+    if lt is not None:
+        return lt[0], [("lit", v) for v in lt[1]]
+    if isinstance(test, ast.Compare) and len(test.ops) == 1 and isinstance(
+            test.ops[0], ast.In) and _pure_subject(test.left) and isinstance(
+                test.comparators[0], (ast.Name, ast.Attribute)):
+        return test.left, [("in", test.comparators[0])]
+    return None
+
+
+def general_dispatches(nodes) -> list[Dispatch]:
+    """Like literal_dispatches, but an arm may also be selected by membership
+    in a named table: `elif s in TABLE:` / `case x if x in TABLE:`. Arms are
+    (tests, body) with tests a list of ("lit", value) | ("in", expr)."""
+    out: list[Dispatch] = []
+    nodes = list(nodes)
+    elifs = set()
+    for n in nodes:
+        if isinstance(n, ast.If) and len(n.orelse) == 1 and isinstance(
+                n.orelse[0], ast.If):
+            elifs.add(id(n.orelse[0]))
+    for n in nodes:
+        if isinstance(n, ast.Match):
+            arms = []
+            default = None
+            ok = True
+            for case in n.cases:
+                lits = _match_literals(case.pattern)
+                p = case.pattern
+                if lits is not None and case.guard is None:
+                    arms.append(([("lit", v) for v in lits], case.body))
+                elif isinstance(p, ast.MatchAs) and p.pattern is None and \
+                        case.guard is None:
+                    default = case.body
+                elif isinstance(p, ast.MatchAs) and p.pattern is None and \
+                        p.name is not None and isinstance(
+                            case.guard, ast.Compare) and len(
+                                case.guard.ops) == 1 and isinstance(
+                                    case.guard.ops[0], ast.In) and isinstance(
+                                        case.guard.left, ast.Name) and \
+                        case.guard.left.id == p.name:
+                    r = case.guard.comparators[0]
+                    if isinstance(r, (ast.Tuple, ast.List, ast.Set)) and all(
+                            isinstance(x, ast.Constant) for x in r.elts):
+                        arms.append(([("lit", x.value) for x in r.elts],
+                                     case.body))
+                    else:
+                        arms.append(([("in", r)], case.body))
+                else:
+                    ok = False
+            if ok and arms:
+                out.append(Dispatch(n, n.subject, arms, default))
+        elif isinstance(n, ast.If) and id(n) not in elifs:
+            first = _general_test(n.test)
+            if first is None:
+                continue
+            subject = ast.unparse(first[0])
+            arms = []
+            cur = n
+            default = None
+            while True:
+                t = _general_test(cur.test)
+                if t is None or ast.unparse(t[0]) != subject:
+                    arms = []
+                    break
+                arms.append((t[1], cur.body))
+                if len(cur.orelse) == 1 and isinstance(cur.orelse[0], ast.If) \
+                        and _general_test(cur.orelse[0].test) is not None:
+                    cur = cur.orelse[0]
+                    continue
+                default = cur.orelse or None
+                break
+            if len(arms) >= 2:
+                out.append(Dispatch(n, first[0], arms, default))
+    return out
